@@ -58,7 +58,8 @@ pub fn enum_discriminants_inner(ast: &DeriveInput) -> syn::Result<TokenStream> {
         let discriminant = variant
             .discriminant
             .as_ref()
-            .map(|(_, expr)| quote!( = #expr));
+            .map(|(_, expr)| visible_groups(expr.to_token_stream()))
+            .map(|expr| quote!( = #expr));
 
         // Don't copy across the "strum" meta attribute. Only passthrough the whitelisted
         // attributes and proxy `#[strum_discriminants(...)]` attributes
@@ -200,4 +201,27 @@ pub fn enum_discriminants_inner(ast: &DeriveInput) -> syn::Result<TokenStream> {
         #impl_from
         #impl_from_ref
     })
+}
+
+/// An expression assembled by a `macro_rules!` macro (`$a * 2` with `$a = 1 + 2`) groups its
+/// fragments invisibly, and that grouping is lost when the copied tokens are parsed again.
+/// Turn those groups into parentheses so that the copy keeps its value.
+pub(crate) fn visible_groups(tokens: TokenStream) -> TokenStream {
+    use proc_macro2::{Delimiter, Group};
+
+    tokens
+        .into_iter()
+        .map(|tree| match tree {
+            TokenTree::Group(group) => {
+                let delimiter = match group.delimiter() {
+                    Delimiter::None => Delimiter::Parenthesis,
+                    other => other,
+                };
+                let mut visible = Group::new(delimiter, visible_groups(group.stream()));
+                visible.set_span(group.span());
+                TokenTree::Group(visible)
+            }
+            other => other,
+        })
+        .collect()
 }
